@@ -334,6 +334,95 @@ Definition removed_under chk cfg (l : list label) (p : pid) (a : att) (i : inode
     st_pc (ps s1 q) = Inside (a_k a) i /\ in_attempt (st_pc (ps s1 p)) a i /\
     (forall o, In (p, o) l2 -> o <> OOpen).
 
+(* ---------------------------------------------------------------- time: clock and modification times
+
+   A layer over `stepc` that supplies the readings: one clock `now` (time.time() of every process and the time
+   stamps of the file system), the modification time of every lock file - set to `now` when open(path, 'w+')
+   creates or truncates it and when the new owner writes its pid - and, as a ghost, the time at which each
+   process opened the file it is working on.  OTime t is enabled only for t = now, OMtime (Some m) only for
+   m = modification time of the file at the path. *)
+Record tstate := mk_tstate { base : state; now : Z; mtime : inode -> Z; opened : pid -> Z }.
+
+Definition tinit : tstate := mk_tstate init 0%Z (fun _ => 0%Z) (fun _ => 0%Z).
+
+Definition reading_ok (ts : tstate) (o : op) : bool :=
+  match o with
+  | OTime t => Z.eqb t (now ts)
+  | OMtime (Some m) => match path (base ts) 0 with Some i => Z.eqb m (mtime ts i) | None => true end
+  | _ => true
+  end.
+
+(* the inode whose modification time the call sets: open('w+'), and the pid write that follows the successful
+   identity check (or, without the check, the successful flock) in the same step *)
+Definition touch_of (o : op) (r : res) (c' : pc) : option inode :=
+  match o, r with
+  | OOpen, ROpen _ i _ => Some i
+  | OStat, _ => match inside_pc c' with Some (_, i) => Some i | None => None end
+  | OFlock, _ => match inside_pc c' with Some (_, i) => Some i | None => None end
+  | _, _ => None
+  end.
+
+Definition tstep (chk : bool) (cfg : pid -> pconf) (ts : tstate) (p : pid) (o : op) : option tstate :=
+  if reading_ok ts o then
+    match stepc chk cfg (base ts) p o with
+    | Some (s', r, _) =>
+      Some (mk_tstate s' (now ts)
+              (match touch_of o r (st_pc (ps s' p)) with Some i => upd (mtime ts) i (now ts) | None => mtime ts end)
+              (match o with OOpen => upd (opened ts) p (now ts) | _ => opened ts end))
+    | None => None
+    end
+  else None.
+
+(* time passes *)
+Definition tick (ts : tstate) (d : Z) : tstate := mk_tstate (base ts) (now ts + d)%Z (mtime ts) (opened ts).
+
+(* control states of a process that has the lock file open and has not yet given up on it or released it *)
+Definition witness_pc (c : pc) : option inode :=
+  match c with
+  | Opened _ i => Some i
+  | Flocked _ i => Some i
+  | Replacing _ i => Some i
+  | Inside _ i => Some i
+  | _ => None
+  end.
+
+(* timing assumption: no process takes longer than B from opening a lock file to releasing it (or to the end of
+   its failed attempt) *)
+Definition timely (B : Z) (ts : tstate) : Prop :=
+  forall q i, witness_pc (st_pc (ps (base ts) q)) = Some i -> (now ts - opened ts q <= B)%Z.
+
+(* states reachable through timely states *)
+Inductive treach (B : Z) (chk : bool) (cfg : pid -> pconf) : tstate -> Prop :=
+| tr_init : treach B chk cfg tinit
+| tr_tick ts d : treach B chk cfg ts -> (0 <= d)%Z -> timely B (tick ts d) -> treach B chk cfg (tick ts d)
+| tr_act ts p o ts' : treach B chk cfg ts -> tstep chk cfg ts p o = Some ts' -> timely B ts' -> treach B chk cfg ts'.
+
+(* timed schedules as lists: clock increments and calls *)
+Inductive tlabel := LTick (d : Z) | LAct (p : pid) (o : op).
+
+Definition tnext (chk : bool) (cfg : pid -> pconf) (ts : tstate) (x : tlabel) : option tstate :=
+  match x with
+  | LTick d => if Z.leb 0 d then Some (tick ts d) else None
+  | LAct p o => tstep chk cfg ts p o
+  end.
+
+Fixpoint trun (chk : bool) (cfg : pid -> pconf) (ts : tstate) (l : list tlabel) : option tstate :=
+  match l with
+  | [] => Some ts
+  | x :: r => match tnext chk cfg ts x with Some ts' => trun chk cfg ts' r | None => None end
+  end.
+
+(* every state the schedule passes through is timely *)
+Fixpoint all_timely (B : Z) (chk : bool) (cfg : pid -> pconf) (ts : tstate) (l : list tlabel) : Prop :=
+  match l with
+  | [] => True
+  | x :: r => match tnext chk cfg ts x with Some ts' => timely B ts' /\ all_timely B chk cfg ts' r | None => False end
+  end.
+
+(* every lock user is a FileLock(remove_on_unlock=True) (the tile locks), every clean-up has max_lock_time >= B *)
+Definition tile_locks (B : Z) (cfg : pid -> pconf) : Prop :=
+  forall p, p_kind (cfg p) = KFile true \/ (p_kind (cfg p) = KClean /\ (B <= p_timeout (cfg p))%Z).
+
 (* ---------------------------------------------------------------- comparison with an observed trace *)
 
 Definition res_eqb (a b : res) : bool :=
@@ -374,6 +463,24 @@ Definition cfg_of (l : list pconf) (p : pid) : pconf := nth p l (mk_pconf (KFile
 
 Definition trace_ok (chk : bool) (l : list pconf) (tr : list obs) : bool :=
   match first_bad chk (cfg_of l) init tr 0 with None => true | Some _ => false end.
+
+(* comparison of a trace with clock increments *)
+Inductive tobs := TTick (d : Z) | TObs (x : obs).
+
+Fixpoint tfirst_bad (chk : bool) (cfg : pid -> pconf) (ts : tstate) (tr : list tobs) (n : nat) : option nat :=
+  match tr with
+  | [] => None
+  | TTick d :: rest => if Z.leb 0 d then tfirst_bad chk cfg (tick ts d) rest (S n) else Some n
+  | TObs (p, o, r, e) :: rest =>
+    match stepc chk cfg (base ts) p o, tstep chk cfg ts p o with
+    | Some (_, r', e'), Some ts' =>
+      if res_eqb r r' && event_eqb e e' then tfirst_bad chk cfg ts' rest (S n) else Some n
+    | _, _ => Some n
+    end
+  end.
+
+Definition ttrace_ok (chk : bool) (l : list pconf) (tr : list tobs) : bool :=
+  match tfirst_bad chk (cfg_of l) tinit tr 0 with None => true | Some _ => false end.
 
 (* number of processes of `pids` that are inside after the trace (None when the trace is not a run) *)
 Definition labels_of (tr : list obs) : list label := map (fun x => let '(p, o, _, _) := x in (p, o)) tr.
